@@ -21,7 +21,7 @@ const NGROUPS: &[&str] = &["1", "2", "3", "4"];
 const FORM: &[&str] = &["c[w..]", "c1-c2-w"];
 const LEN: &[&str] = &["2", "1", "3"];
 const GAP: &[&str] = &["adjacent", "gap-1", "gap-40"];
-const ANCHOR: &[&str] = &["0", "300", "65400"];
+const ANCHOR: &[&str] = &["0", "300", "65400", "last-code-65535"];
 const DWS: &[&str] = &["1000-default-omitted", "0", "500"];
 const PERMS: &[&str] = &["p0", "p1", "p2", "p3", "p4", "p5", "p6", "p7", "p8", "p9", "p10", "p11", "p12", "p13", "p14", "p15", "p16", "p17", "p18", "p19", "p20", "p21", "p22", "p23"];
 
@@ -43,7 +43,8 @@ fn nth_permutation(n: usize, mut k: usize) -> Vec<usize> {
 pub fn warray_case(ch: &mut Chooser, t: &mut Tally) {
     let maxg = MAX_GROUPS.load(Ordering::Relaxed);
     let n = ch.pick_free_named("groups", &NGROUPS[..maxg]) + 1;
-    let anchor: usize = [0, 300, 65400][ch.pick_free_named("anchor", ANCHOR)];
+    let anchor_i = ch.pick_free_named("anchor", ANCHOR);
+    let anchor: usize = [0, 300, 65400, 0][anchor_i];
     let dwi = ch.pick_free_named("DW", DWS);
     let dw: f32 = [1000.0, 0.0, 500.0][dwi];
     // groups in ascending code order
@@ -56,6 +57,13 @@ pub fn warray_case(ch: &mut Chooser, t: &mut Tally) {
         let first = next + gap;
         groups.push((first, len, form == 1));
         next = first + len;
+    }
+    if anchor_i == 3 {
+        // the last group ends at the highest code
+        let shift = 65536 - next;
+        for g in groups.iter_mut() {
+            g.0 += shift;
+        }
     }
     let nperm: usize = (1..=n).product();
     let pk = ch.pick_free_named("order", &PERMS[..nperm]);
@@ -463,7 +471,7 @@ pub fn run(tier: Tier, _seed: u64, tally: &mut Tally) -> CheckMeta {
     CheckMeta {
         prop: "C19",
         level: "model_checking",
-        rule: format!("composite /W arrays: full product of 1..{} groups x form {{c [w..], c1 c2 w}} x length {{1,2,3}} x spacing {{adjacent, gap 1, gap 40}} x anchor {{0, 300, 65400}} x every permutation of the groups x DW {{1000 omitted, 0, 500}}, queried at every code within 2 of each range end plus 0/1/65534/65535; simple fonts: FirstChar x Widths length x subtype; write_cmap round trip for all maps with <= 3 entries over 9 codes x 7 texts (BMP, U+FFFF, supplementary planes, texts beginning with U+FEFF); conformant CMap texts (bfchar, bfrange with string and array destinations, mixed sections, 1- and 2-byte codes, range lengths, start codes incl. 0xFD/0xFFFD) x hex case / separators / header presence with bounded deviations. Distinct by the printed font dictionary / cmap text.", maxg),
+        rule: format!("composite /W arrays: full product of 1..{} groups x form {{c [w..], c1 c2 w}} x length {{1,2,3}} x spacing {{adjacent, gap 1, gap 40}} x anchor {{0, 300, 65400, last group ending at 65535}} x every permutation of the groups x DW {{1000 omitted, 0, 500}}, queried at every code within 2 of each range end plus 0/1/65534/65535; simple fonts: FirstChar x Widths length x subtype; write_cmap round trip for all maps with <= 3 entries over 9 codes x 7 texts (BMP, U+FFFF, supplementary planes, texts beginning with U+FEFF); conformant CMap texts (bfchar, bfrange with string and array destinations, mixed sections, 1- and 2-byte codes, range lengths, start codes incl. 0xFD/0xFFFD) x hex case / separators / header presence with bounded deviations. Distinct by the printed font dictionary / cmap text.", maxg),
         assumptions: vec!["MissingWidth absent for simple fonts (default 0 is unambiguous only then)".into(), "bfrange string destinations whose last byte would overflow are not generated (the spec leaves them undefined)".into()],
         exhaustive: true,
         bounds: json!({"groups": maxg}),
